@@ -91,6 +91,21 @@ def gen_case(rng, tier):
         # explicit, already resolved equality columns drawn at random: either operand may lack one
         # (then the call has to raise ColumnError), otherwise the join node has to carry exactly them
         case["final"] = dict(case["final"], minmax=rng.sample("abcd", rng.randint(1, 2)))
+        if rng.random() < 0.4:
+            # only a lower bound (min_columns), possibly naming a non-key column: the resolved
+            # equality columns are still key columns of both operands, or the call raises
+            case["final"]["minonly"] = True
+            case["final"]["minmax"] = rng.sample("abcdxy", rng.randint(1, 2))
+            nonkey = [x for x in case["cols"] if x in "xy"]
+            if nonkey and rng.random() < 0.7:
+                # a fixed operand that shares a NON-key column with the target, named as a required
+                # equality column (structure only: C14 does not evaluate these trees)
+                nk = rng.choice(nonkey)
+                fcols = sorted({nk} | set(rng.sample([x for x in case["cols"] if x not in "xy"] or ["a"], 1)))
+                case["leaves"]["LX"] = {"engine": case["final"]["fixed_engine"], "cols": fcols, "rows": [[1] * len(fcols), [2] * len(fcols)], "kind": "normal", "min": 2, "max": 2}
+                case["final"]["fixed"] = ["leaf", "LX"]
+                case["final"]["pred"] = None
+                case["final"]["minmax"] = [nk] + ([fcols[0]] if rng.random() < 0.5 and fcols[0] != nk else [])
     case["twin_first"] = rng.random() < 0.3
     if rng.random() < 0.08:
         # a join identity that travelled through one or two transfers, joined to a relation that
@@ -194,7 +209,7 @@ def run_case(case):
                         from ..tags import T
 
                         cc = frozenset(T(x) for x in f["minmax"])
-                        jop = R.Join(pj, min_columns=cc, max_columns=cc)
+                        jop = R.Join(pj, min_columns=cc) if f.get("minonly") else R.Join(pj, min_columns=cc, max_columns=cc)
                         c["explicit_common_column_requests"] = c.get("explicit_common_column_requests", 0) + 1
                     else:
                         jop = R.Join(pj)
